@@ -115,7 +115,7 @@ def op_strategy(kind: str, cfg: dict):
     if kind == "comment":
         return st.fixed_dictionaries({"op": st.just("comment"), "who": idx, "text": name})
     if kind == "create_uid":
-        return st.fixed_dictionaries({"op": st.just("create_uid"), "kind": st.sampled_from(["group", "object", "data"]),
+        return st.fixed_dictionaries({"op": st.just("create_uid"), "kind": st.sampled_from(["group", "object", "data", "pg"]),
                                       "source": st.sampled_from(["fresh", "live_same", "live_other", "removed", "live_same"]),
                                       "who": idx, "parent": idx, "name": name,
                                       "form": st.sampled_from(["uuid", "uuid", "str", "braced"])})
@@ -518,6 +518,8 @@ class TreeRun:
         wd = self.w
         kind = op["kind"]
         source = op["source"]
+        if kind == "pg":
+            return self.create_pg_uid(op)
         same = wd.of_kind(kind)
         other = [u for u in wd.nodes if wd.kind[u] != kind]
         freed = [g for g in self.removed if g not in wd.nodes]
@@ -647,6 +649,72 @@ class TreeRun:
                           f"{cname}/{uid} ({cls}) changed parts {parts}; targets={sorted(targets)} parents={sorted(parents)}")
                 return
             self.res.count("untouched_nodes_compared", n_other)
+
+    def create_pg_uid(self, op):
+        """A property group created under a caller-supplied identifier (fresh / owned by another property group /
+        owned by an entity)."""
+        wd = self.w
+        objs = [o for o in wd.of_kind("object") if wd.nodes[o]["cls"] != "Drillhole"]
+        obj_uid = self.pick(objs, op["parent"])
+        if obj_uid is None:
+            return False
+        all_pgs = [u for o in wd.of_kind("object") for u in (wd.nodes[o].get("pgs") or {})]
+        source = op["source"]
+        if source in ("live_same",) and all_pgs:
+            uid = self.pick(all_pgs, op["who"])
+        elif source == "live_other":
+            uid = self.pick([u for u in wd.nodes if u != wd.root], op["who"])
+        else:
+            source, uid = "fresh", str(env.fresh_uid())
+        if uid is None:
+            source, uid = "fresh", str(env.fresh_uid())
+        taken = uid in wd.nodes or uid in all_pgs
+        obj = wd.entity(obj_uid)
+        name = f"cu{self.step}"
+        before = apisnap(wd.ws)
+        raw_before = node_digests(rawsnap(wd.ws.geoh5))
+        self.targets.add(obj_uid)
+        self.res.label("create_uid:pg:" + source)
+        raised = None
+        try:
+            obj.create_property_group(name=name, uid=uuid.UUID(uid))
+        except Exception as exc:
+            raised = (type(exc).__name__, str(exc)[:200])
+        cond = "pg:" + source
+        if taken:
+            if raised is None:
+                self.fail("C06", "taken-uid-accepted", "create_uid", "PropertyGroup", cond,
+                          f"a property group was created with uid {uid} which a live {'property group' if uid in all_pgs else wd.nodes[uid]['cls']} owns")
+                return True
+            del obj
+            gc.collect()
+            after = apisnap(wd.ws)
+            diffs = diff_nodes(before["nodes"], after["nodes"])
+            if diffs:
+                u, f, a, b = diffs[0]
+                self.fail("C06", "refusal-side-effect-tree", "create_uid", "PropertyGroup", cond + ":" + str(f),
+                          f"refused creation changed the live tree: {u} {f}: {a!r:.150} -> {b!r:.150}")
+                return True
+            if before["listings"] != after["listings"]:
+                self.fail("C06", "refusal-side-effect-listing", "create_uid", "PropertyGroup", cond, "refused creation changed the listings")
+                return True
+            if raw_before != node_digests(rawsnap(wd.ws.geoh5)):
+                self.fail("C06", "refusal-side-effect-file", "create_uid", "PropertyGroup", cond, "refused creation changed the file")
+            return True
+        if raised is not None:
+            try:
+                raise RuntimeError(f"{raised[0]}: {raised[1]}")
+            except RuntimeError as exc:
+                raise OpError("PropertyGroup") from exc
+        live = snap_entity(obj).get("pgs") or {}
+        if uid not in live:
+            self.fail("C06", "supplied-uid-ignored", "create_uid", "PropertyGroup", cond, f"asked uid {uid}, groups are {list(live)}")
+            return True
+        if wd.nodes[obj_uid].get("pgs") is None:
+            wd.nodes[obj_uid]["pgs"] = {}
+        wd.nodes[obj_uid]["pgs"][uid] = live[uid]
+        del obj
+        return True
 
     def check_uid_invariants(self, wd, opkind):
         """C06 invariants over the live workspace."""
@@ -1363,6 +1431,8 @@ class TreeRun:
             return False
         obj_uid, pg_uid = pick
         pg_model = wd.nodes[obj_uid]["pgs"][pg_uid]
+        if not pg_model["props"]:
+            return False
         # the list may mix members, non-members (ignored by the library) and repeats, in any order
         pool = pg_model["props"] + [c for c in wd.nodes[obj_uid]["children"]
                                     if wd.kind.get(c) == "data" and c not in pg_model["props"]]
